@@ -248,26 +248,28 @@ class Gen:
         return f"{a} % 3 != {k}", f"{at} % 3 != {k}"
 
     # ---- statements --------------------------------------------------------
-    def target_struct(self, ctx, depth=0):
-        """Random (possibly nested / starred) target structure over local names.
+    def target_struct(self, ctx, depth=0, used=None):
+        """Random (possibly nested / starred) target structure over distinct local names.
         Returns (text, [leaf names in order], nvalues-spec)."""
         rnd = self.rnd
-        n = rnd.randint(2, 3)
+        n = rnd.randint(2, 3) if depth == 0 else 2
         parts, leaves = [], []
+        used = used if used is not None else []
         starred_at = None
         if self.ok("starred") and rnd.random() < 0.25:
             starred_at = rnd.randrange(n)
             self.feat("starred")
         shape = []
         for i in range(n):
-            if depth == 0 and self.ok("nested_tuple") and rnd.random() < 0.2 and starred_at != i:
+            if depth == 0 and self.ok("nested_tuple") and rnd.random() < 0.2 and starred_at != i and len(used) <= 2:
                 self.feat("nested_tuple")
-                txt, lv, sh = self.target_struct(ctx, depth + 1)
+                txt, lv, sh = self.target_struct(ctx, depth + 1, used)
                 parts.append(f"({txt})")
                 leaves += lv
                 shape.append(sh)
             else:
-                name = rnd.choice([x for x in LOCALS if x not in leaves] or LOCALS)
+                name = rnd.choice([x for x in LOCALS if x not in used])
+                used.append(name)
                 leaves.append(name)
                 parts.append(("*" if starred_at == i else "") + name)
                 shape.append("*" if starred_at == i else 1)
